@@ -1,4 +1,6 @@
 import AvroModel.Lemmas.NoPanic
+import AvroModel.Lemmas.Terminates
+import AvroModel.Lemmas.WriteStable
 import AvroModel.Props.C18
 /-!
 # C06 — Malformed input yields errors, never panics, hangs or runaway allocation
@@ -9,6 +11,10 @@ What is proved here, for every byte string (no validity hypothesis):
   guard makes every slice expression safe (`next_total`) and a union selector is range-checked
   before it indexes the branch list;
 * timestamp parsing never panics (`parse_time_total`, from C18).
+* the model of `Read` and `Skip` terminates (`read_terminates`, `skip_terminates`; with
+  `read_total`: `read_result`, `skip_result` — "a result or an error"), and outcomes are monotone in
+  the step budget (`read_fuel_mono`); the other budget-indexed model functions (`write`, `toAvro`,
+  `ofAvro`) have explicit sufficient budgets (`write_budget`, `toAvro_budget`, `ofAvro_budget`).
 The container reader (`C07.no_panic`), the schema parser (total by construction: C14) complete the list.
 Runaway allocation / non-termination from declared array block counts is the recorded, unrepaired
 finding D14 (`arrayCodec.resizeSlice`); it is exercised by the harness and reported as KNOWN-FINDING.
@@ -45,5 +51,152 @@ theorem array_count_overflow_rejected (count : Int) (r : Bytes) (len : Nat) (hc 
 /-- timestamp text: every byte string yields a time or an error -/
 theorem parse_time_total (bs : Bytes) (k : Avro.Time.TPanic) : Avro.Time.parseTime bs ≠ .panic k :=
   Avro.C18.total bs k
+
+end Avro.C06
+
+/-! ## Termination ("never … fails to terminate")
+
+The model's loops and recursion are indexed by a step budget; `.fuel` is "budget exhausted". The
+theorems below show that this outcome is an artefact of too small a budget: for every codec tree,
+every input (random, truncated, hostile block counts) and every destination there is a budget from
+which on the outcome is one and the same and is a result or an error.
+
+The one hypothesis, `Env.Sane`, concerns user-registered custom codecs, which the model treats as
+arbitrary functions on the unread input: they must not hand back more unread input than they were
+given (a real `ReadBuf` cannot un-read). Without it the statement is false in the model:
+`termination_needs_sane`. -/
+namespace Avro.C06
+open Avro
+
+variable (env : Env)
+
+/-- Monotonicity in the step budget: an outcome other than `.fuel` is the outcome for every larger
+budget. (Unconditional; the nine other mutually recursive functions: `Avro.readFields_mono`, … in
+`Lemmas/Mono.lean`.) -/
+theorem read_fuel_mono {n m : Nat} (h : n ≤ m) (c : Codec) (bs : Bytes) (dst : GoVal)
+    (hr : read env n c bs dst ≠ .fuel) : read env m c bs dst = read env n c bs dst :=
+  read_mono env h hr
+
+theorem skip_fuel_mono {n m : Nat} (h : n ≤ m) (c : Codec) (bs : Bytes)
+    (hr : skip env n c bs ≠ .fuel) : skip env m c bs = skip env n c bs :=
+  skip_mono env h hr
+
+/-- `Codec.Read` terminates: for every codec tree `c`, input `bs` and destination `dst` there is a
+step budget `n` that suffices (`≠ .fuel`), and every larger budget gives the same outcome. -/
+theorem read_terminates (hs : env.Sane) (c : Codec) (bs : Bytes) (dst : GoVal) :
+    ∃ n, ∀ m, n ≤ m → read env m c bs dst = read env n c bs dst ∧ read env n c bs dst ≠ .fuel :=
+  (halts env hs c).read bs dst |>.stable
+
+/-- `Codec.Skip` terminates, in the same sense. -/
+theorem skip_terminates (hs : env.Sane) (c : Codec) (bs : Bytes) :
+    ∃ n, ∀ m, n ≤ m → skip env m c bs = skip env n c bs ∧ skip env n c bs ≠ .fuel :=
+  (halts env hs c).skip bs |>.stable
+
+/-- "A result or an error": with a sufficient budget `Codec.Read` returns a decoded value together
+with unread input no longer than the input, or an error — or `stuck`, the model's outcome for a
+destination whose shape does not fit the codec (e.g. an array codec given a non-slice; this is not a
+property of the bytes and is excluded by the typing judgement of C05). Never a panic
+(`read_total`), never out of budget. -/
+theorem read_result (hs : env.Sane) (c : Codec) (bs : Bytes) (dst : GoVal) :
+    ∃ n, ∀ m, n ≤ m →
+      (∃ g rest, read env m c bs dst = .ok (g, rest) ∧ rest.length ≤ bs.length) ∨
+      read env m c bs dst = .err ∨ read env m c bs dst = .stuck := by
+  obtain ⟨n, h⟩ := read_terminates env hs c bs dst
+  refine ⟨n, fun m hm => ?_⟩
+  obtain ⟨h1, h2⟩ := h m hm
+  have hp := read_total env m c bs dst
+  have hl := (lenAt env hs m).read c bs dst _ (Nat.le_refl _)
+  rw [h1] at hp hl ⊢
+  cases hr : read env n c bs dst with
+  | ok p => left; exact ⟨p.1, p.2, rfl, hl p hr⟩
+  | err => right; left; rfl
+  | stuck => right; right; rfl
+  | panic => exact absurd hr hp
+  | fuel => exact absurd hr h2
+
+/-- `Codec.Skip` has no destination: with a sufficient budget it returns the unread input (no
+longer than the input) or an error. -/
+theorem skip_result (hs : env.Sane) (c : Codec) (bs : Bytes) :
+    ∃ n, ∀ m, n ≤ m →
+      (∃ rest, skip env m c bs = .ok rest ∧ rest.length ≤ bs.length) ∨ skip env m c bs = .err := by
+  obtain ⟨n, h⟩ := skip_terminates env hs c bs
+  refine ⟨n, fun m hm => ?_⟩
+  obtain ⟨h1, h2⟩ := h m hm
+  have hp := skip_total env m c bs
+  have hk := (skipNoStuckAt env m).skip c bs
+  have hl := (lenAt env hs m).skip c bs _ (Nat.le_refl _)
+  rw [h1] at hp hk hl ⊢
+  cases hr : skip env n c bs with
+  | ok p => left; exact ⟨p, rfl, hl p hr⟩
+  | err => right; rfl
+  | stuck => exact absurd hr hk
+  | panic => exact absurd hr hp
+  | fuel => exact absurd hr h2
+
+/-- the hypothesis is satisfiable by an environment with real custom codecs (each reads a varint) -/
+example : envVarint.Sane := envVarint_sane
+
+/-- a concrete instance: a record with an array of custom items, a map and a union, on hostile
+input, under the sane environment above -/
+example (bs : Bytes) (dst : GoVal) :
+    ∃ n, ∀ m, n ≤ m →
+      read envVarint m (.record [] [.array (.custom 0) false, .map .null false, .union [.null, .string false]]
+        [some 0, none, some 1]) bs dst =
+      read envVarint n (.record [] [.array (.custom 0) false, .map .null false, .union [.null, .string false]]
+        [some 0, none, some 1]) bs dst ∧
+      read envVarint n (.record [] [.array (.custom 0) false, .map .null false, .union [.null, .string false]]
+        [some 0, none, some 1]) bs dst ≠ .fuel :=
+  read_terminates envVarint envVarint_sane _ bs dst
+
+/-- `Env.Sane` cannot be dropped: with a custom codec that returns more unread input than it was
+given, reading a map / skipping an array of such items exhausts every budget. -/
+theorem termination_needs_sane :
+    ¬ envGrow.Sane ∧
+    (∀ n, read envGrow n (.map (.custom 0) false) [2, 0] (.map true [] []) = .fuel) ∧
+    (∀ n, skip envGrow n (.array (.custom 0) false) [2, 0] = .fuel) :=
+  ⟨envGrow_not_sane, read_diverges, skip_diverges⟩
+
+/-- zero-width items do not defeat termination: an array block declaring 2^62 `null` items
+terminates (after that many steps — the run-time cost of this input is the recorded finding D14),
+here for any input whatsoever -/
+example (bs : Bytes) : ∃ n, ∀ m, n ≤ m →
+    read envVarint m (.array .null false) bs (.slice []) = read envVarint n (.array .null false) bs (.slice []) ∧
+    read envVarint n (.array .null false) bs (.slice []) ≠ .fuel :=
+  read_terminates envVarint envVarint_sane _ bs _
+
+/-! ### The other budget-indexed model functions
+
+`write` (result `Option Bytes`), `toAvro` and `ofAvro` (`Sem.lean`) use the same device; their
+out-of-budget value (`none`, `.illtyped`) is also their "ill-typed" value. For them the budget is
+harmless in this form: results are monotone in the budget, and from an explicit budget — the nesting
+of the codec plus the size of the value, `Codec.sz c + GoVal.sz g + 1` — on, the result is final. -/
+
+/-- a successful `write` is the result for every larger budget -/
+theorem write_fuel_mono {n m : Nat} (h : n ≤ m) (c : Codec) (g : GoVal) (b : Bytes)
+    (hw : write env n c g = some b) : write env m c g = some b :=
+  write_mono env h hw
+
+/-- from budget `c.sz + g.sz + 1` on `write` no longer changes: a `none` there is ill-typedness
+(or the deliberate panic of `unionCodec.Write`), not the budget -/
+theorem write_budget (c : Codec) (g : GoVal) (m : Nat) (h : c.sz + g.sz + 1 ≤ m) :
+    write env m c g = write env (c.sz + g.sz + 1) c g :=
+  write_stable env c g m h
+
+theorem toAvro_budget (nullp : Codec → GoVal → Bool) (c : Codec) (g : GoVal) (m : Nat) (h : c.sz + g.sz + 1 ≤ m) :
+    toAvro env nullp m c g = toAvro env nullp (c.sz + g.sz + 1) c g :=
+  toAvro_stable env nullp c g m h
+
+theorem ofAvro_budget (c : Codec) (v : Value) (dst : GoVal) (m : Nat) (h : c.sz + v.sz + 1 ≤ m) :
+    ofAvro env m c v dst = ofAvro env (c.sz + v.sz + 1) c v dst :=
+  ofAvro_stable env c v dst m h
+
+/-- instance: a struct with a slice of two ints under a record/array codec has measure 3 + 5, so
+budget 9 is final -/
+example (m : Nat) (h : 9 ≤ m) :
+    write env m (.record [] [.array (.int 64 false) false] [some 0]) (.struct [.slice [.int 1, .int 2]]) =
+    write env 9 (.record [] [.array (.int 64 false) false] [some 0]) (.struct [.slice [.int 1, .int 2]]) := by
+  have := write_budget env (.record [] [.array (.int 64 false) false] [some 0]) (.struct [.slice [.int 1, .int 2]]) m
+  simp only [Codec.sz, Codec.szList, GoVal.sz, GoVal.szList, Nat.zero_add, Nat.add_zero, Nat.reduceAdd] at this
+  exact this h
 
 end Avro.C06
